@@ -31,6 +31,7 @@ import (
 	"sort"
 	"strings"
 	"sync"
+	"time"
 	"unsafe"
 
 	"golang.org/x/crypto/cryptobyte"
@@ -127,9 +128,20 @@ type realRes struct {
 	ops  int
 }
 
+// protect is vf.Protect without the stack trace (a large share of the programs panics on purpose).
+func protect(f func()) (panicked bool, val any) {
+	defer func() {
+		if r := recover(); r != nil {
+			panicked, val = true, r
+		}
+	}()
+	f()
+	return
+}
+
 func runReal(prog []*cbref.Op, vals *cbref.Values, b *cryptobyte.Builder) (res realRes) {
 	r := &realRun{root: b, vals: vals}
-	panicked, val, _ := vf.Protect(func() { r.exec(prog, b, 0) })
+	panicked, val := protect(func() { r.exec(prog, b, 0) })
 	res.ops = r.ops
 	if panicked {
 		res.pval = fmt.Sprint(val)
@@ -159,7 +171,7 @@ func runReal(prog []*cbref.Op, vals *cbref.Values, b *cryptobyte.Builder) (res r
 	}
 	var out []byte
 	var err error
-	if p, v, _ := vf.Protect(func() { out, err = b.Bytes() }); p {
+	if p, v := protect(func() { out, err = b.Bytes() }); p {
 		res.kind, res.pval = "panic-runtime", "Bytes(): "+fmt.Sprint(v)
 		return
 	}
@@ -593,14 +605,15 @@ func (sp *space) tree(s int, j uint64) *cbref.Op {
 	return &o
 }
 
-func (k *checker) familyA(T int, sizes []int) {
+// familyA enumerates every forest with exactly t operations for t in [tLo, tHi].
+func (k *checker) familyA(label string, tLo, tHi int, sizes []int) {
 	c := k.c
-	sp := newSpace(T, sizes)
-	var perSize []uint64
-	for t := 0; t <= T; t++ {
-		perSize = append(perSize, sp.f[t])
+	sp := newSpace(tHi, sizes)
+	perSize := map[string]uint64{}
+	for t := tLo; t <= tHi; t++ {
+		perSize[fmt.Sprint(t)] = sp.f[t]
 		total := sp.f[t]
-		const chunk = 1024
+		const chunk = 512
 		nchunks := int((total + chunk - 1) / chunk)
 		track := t <= 4
 		c.ParallelFor(nchunks, func(ci int) {
@@ -619,8 +632,7 @@ func (k *checker) familyA(T int, sizes []int) {
 			break
 		}
 	}
-	c.Set("familyA_programs_by_size", perSize)
-	c.Set("familyA_alphabet", map[string]any{"leaves": len(sp.leaves), "nodes": len(sp.nodes), "bytes_sizes": sizes, "max_ops": T})
+	c.Set("familyA_"+label, map[string]any{"leaves": len(sp.leaves), "nodes": len(sp.nodes), "bytes_sizes": sizes, "programs_by_op_count": perSize})
 }
 
 // ---------------------------------------------------------------------------
@@ -747,7 +759,7 @@ func run(c *vf.Ctx) {
 	for i := 0; i < poolLen; i += len(base) {
 		copy(pool[i:], base)
 	}
-	k := &checker{c: c, vals: &cbref.Values{Pool: pool}, seed: maphash.MakeSeed(), fixedMax: 1 << 20,
+	k := &checker{c: c, vals: &cbref.Values{Pool: pool}, seed: maphash.MakeSeed(), fixedMax: 4096,
 		outcomes: map[string]int64{}, counts: map[string]int64{}}
 	k.scratch.New = func() any { b := make([]byte, 1<<16+1024); return &b }
 	debug.SetGCPercent(400)
@@ -778,13 +790,31 @@ func run(c *vf.Ctx) {
 	}
 
 	sizes := []int{0, 1, 126, 127, 128, 255, 256, 65535, 65536}
+	small := sizes[:7]
+	phases := map[string]float64{}
+	last := time.Now()
+	phase := func(name string) {
+		phases[name] = time.Since(last).Seconds()
+		last = time.Now()
+		c.Set("phase_seconds", phases)
+	}
 	k.familyC()
+	phase("C")
 	if c.Thorough {
 		k.familyB(4, []int{128, 256, 65536}, "B")
+		phase("B")
 		k.familyB(2, []int{1 << 24}, "B24")
-		k.familyA(5, sizes)
+		phase("B24")
+		k.familyA("all_sizes", 0, 4, sizes)
+		phase("A_all_sizes")
+		k.familyA("sizes_upto_256", 5, 5, small)
+		phase("A_sizes_upto_256")
 	} else {
 		k.familyB(3, []int{128, 256, 65536}, "B")
-		k.familyA(4, sizes)
+		phase("B")
+		k.familyA("all_sizes", 0, 3, sizes)
+		phase("A_all_sizes")
+		k.familyA("sizes_upto_256", 4, 4, small)
+		phase("A_sizes_upto_256")
 	}
 }
